@@ -5,7 +5,7 @@ open OdlModel OdlModel.OpAlgebra
 
 /-!
 `expr leaves=<leaf|leaf|…> e=<rpn token|token|…> x=<entries>`
-answers `ok tree=… dom=… ran=… lin=0|1 fn=0|1 ty=… val=… inp=… den=…` or `raise`.
+answers `ok tree=… dom=… ran=… lin=0|1 fn=0|1 ty=… linof=0|1 val=… inp=… den=…` or `raise ty=…`.
 
 leaf   : `mat~ndom~nran~rows` `scale~n~c` `ident~n` `pow~n~p` `inner~n~y` `l2sq~n` `constf~n~c`
          `zerof~n` `linf~n~y` (leaf id = position)
@@ -188,7 +188,7 @@ def doExpr (l : Line) : Option String := do
     let val := toList n (run env i xv)
     let inp := toList n (runIn env i xv)
     let d := toList n (den env e xv)
-    some s!"ok tree={showImpl i} dom={showSp i.dom} ran={showSp i.ran} lin={b01 i.lin} fn={b01 i.isFn} ty={showTy ty} val={showCList val} inp={showCList inp} den={showCList d}"
+    some s!"ok tree={showImpl i} dom={showSp i.dom} ran={showSp i.ran} lin={b01 i.lin} fn={b01 i.isFn} ty={showTy ty} linof={b01 (linOf e)} val={showCList val} inp={showCList inp} den={showCList d}"
 
 def handle (l : Line) : Option String :=
   match l.op with
